@@ -41,7 +41,15 @@ func (t *pipeTarget) arrive(id int) {
 
 func (t *pipeTarget) setHold() {
 	t.mu.Lock()
-	if t.hold == nil {
+	rearm := t.hold == nil
+	if !rearm {
+		select {
+		case <-t.hold: // opened earlier: hold again
+			rearm = true
+		default:
+		}
+	}
+	if rearm {
 		t.hold = make(chan struct{})
 	}
 	t.mu.Unlock()
@@ -147,7 +155,7 @@ func settleWindow() int {
 	if os.Getenv("VERIF_SLOW") != "" {
 		return 100
 	}
-	return 10
+	return 16
 }
 
 // execServerScript: "server script <M> <Q> <op,op,…>"
